@@ -431,7 +431,7 @@ def validate_obs(ctx, module, cfg, obs_name, obs_path, timeout=1800, chunk=40000
         with open(os.path.join(ctx.specdir, obs_name), "w") as fh:
             fh.writelines(part)
         res = ctx.tlc(module, cfg=cfg, cont=True, timeout=timeout)
-        extra = {}
+        extra = []          # (index, [strings]) - one entry per BAD line; an observation may fail several clauses
         for l in res["out"]:
             m = re.match(r'^<<"BAD", (\d+)(.*)>>$', l)
             if m:
@@ -439,16 +439,21 @@ def validate_obs(ctx, module, cfg, obs_name, obs_path, timeout=1800, chunk=40000
                 strs = re.findall(r'"([^"]*)"', rest)
                 if not strs and rest.strip(", "):
                     strs = [rest.strip(", ")]
-                extra[int(m.group(1))] = strs
+                extra.append((int(m.group(1)), strs))
         if res["distinct"] != per_obs_states * len(part):
             raise MachineryError("trace validation explored %d states for %d observations:\n%s" % (
                 res["distinct"], len(part), "\n".join(res["out"][-25:])))
         if bool(extra) != bool(res["violated"]):
             raise MachineryError("BAD lines and TLC's verdict disagree")
-        for i in sorted(extra):
+        seen = set()
+        for (i, strs) in sorted(extra, key=lambda x: (x[0], x[1])):
+            key = (i, tuple(strs))
+            if key in seen:
+                continue      # TLC may evaluate the printing conjunct more than once
+            seen.add(key)
             o = json.loads(part[i - 1])
-            o["spec_extras"] = extra[i]
-            o["spec_extra"] = extra[i][0] if extra[i] else ""
+            o["spec_extras"] = strs
+            o["spec_extra"] = strs[0] if strs else ""
             bad.append(o)
         ctx.traces += len(part)
     os.remove(os.path.join(ctx.specdir, obs_name))
